@@ -13,6 +13,7 @@ RULE = ('one run = a seeded history of commands executed by objects of different
         'the master creator_file and valid_seteuid policy (names incl. Root and Backbone, refusal, 0, array, string, raised error); '
         'after every command getuid/geteuid of every live object is compared with a reference model; non-trivial = at least one refusal '
         '(no-euid creation, refused seteuid, refused export) and one uid change; distinct = distinct abstract outcome sequence.')
+RULE += (' Later additions: masters whose valid_object()/creator_file() look at the uids; euid dropped between check and use (before a blueprint is loaded for a clone).')
 COMPONENTS = {'real': ['src/simulate.c give_uid_to_object/load_object/clone_object', 'lib/efuns/uids.c seteuid/export_uid/getuid/geteuid/uid table',
                        'src/apply.c master applies', 'LPC compiler and interpreter', 'src/comm.c + backend (commands arrive over the simulated socket)'],
               'stub': ['kernel sockets/clock/timer (simulated)', 'file layer pass-through']}
